@@ -160,7 +160,7 @@ func runC13(r *core.Run) {
 	r.Assumptions = []string{"CIE 1976 L*a*b* with eps=216/24389, kappa=24389/27 in refcolor", "domain as the property's quantifier states it"}
 	nx, nl, nrand, nw := 64, 48, 1<<16, 1
 	if r.Thorough() {
-		nx, nl, nrand, nw = 256, 256, 100_000_000, 6
+		nx, nl, nrand, nw = 256, 256, 500_000_000, 6
 	}
 	// the very first conversions of the process come from eight goroutines at once (a lazily built
 	// cube-root or power table must not be observable), in both directions
